@@ -79,6 +79,9 @@ class ContinuousDiscretizer(BaseDiscretizer):
         # checking for previous fits before anything is modified
         self._check_is_not_fitted()
 
+        # checking X and y
+        x_copy = self._prepare_data(X, y)
+
         # storing ordering
         all_orders = []
 
@@ -86,7 +89,7 @@ class ContinuousDiscretizer(BaseDiscretizer):
         if self.n_jobs <= 1:
             all_orders = [
                 fit_feature(
-                    feature, X=X[self.quantitative_features], q=self.q, str_nan=self.str_nan
+                    feature, X=x_copy[self.quantitative_features], q=self.q, str_nan=self.str_nan
                 )
                 for feature in self.quantitative_features
             ]
@@ -96,7 +99,10 @@ class ContinuousDiscretizer(BaseDiscretizer):
                 # feature processing
                 all_orders += pool.imap_unordered(
                     partial(
-                        fit_feature, X=X[self.quantitative_features], q=self.q, str_nan=self.str_nan
+                        fit_feature,
+                        X=x_copy[self.quantitative_features],
+                        q=self.q,
+                        str_nan=self.str_nan,
                     ),
                     self.quantitative_features,
                 )
